@@ -13,6 +13,8 @@ import (
 	"fmt"
 	"net/textproto"
 	"testing"
+
+	"github.com/megaease/easegress/pkg/supervisor"
 )
 
 type c12Step struct {
@@ -26,21 +28,51 @@ type c12Obs struct {
 	Outs     []c12Step `json:"outs"`
 }
 
+// c12Run: Seq entry v >= 0 serves request Reqs[v] on both twins; v < 0 reloads
+// both twins (mux.reload, same mapper) with spec -(v+1) (0 = Server, k = Alts[k-1]),
+// the cached twin with that spec's cacheSize, the other with the cache off.
+// One observation per request.
 func c12Run(in *c01In) c12Obs {
 	in.Oracle = c01Oracles(in)
-	size := in.Server.CacheSize
-	if size <= 0 {
-		size = 1
+	in.Mappers = nil
+	if in.Server.CacheSize <= 0 {
 		in.Server.CacheSize = 1
 	}
-	cached := c01Build(in.Server, size)
+	servers := in.servers()
+	for i := range in.Alts {
+		if in.Alts[i].CacheSize <= 0 {
+			in.Alts[i].CacheSize = in.Server.CacheSize
+		}
+		in.Alts[i].Backends = in.Server.Backends // one mapper for all generations
+	}
+	servers = in.servers()
+	var onSpecs, offSpecs []*supervisor.Spec
+	for _, sv := range servers {
+		on, off := c01SuperSpec(sv, sv.CacheSize), c01SuperSpec(sv, 0)
+		if on == nil || off == nil {
+			return c12Obs{Accepted: false, Outs: []c12Step{}}
+		}
+		onSpecs, offSpecs = append(onSpecs, on), append(offSpecs, off)
+	}
+	cached := c01Build(in.Server, in.Server.CacheSize)
 	twin := c01Build(in.Server, 0)
 	if cached == nil || twin == nil {
 		return c12Obs{Accepted: false, Outs: []c12Step{}}
 	}
 	obs := c12Obs{Accepted: true, Outs: []c12Step{}}
-	for _, idx := range in.Seq {
-		if idx < 0 || idx >= len(in.Reqs) {
+	for k, idx := range in.Seq {
+		if idx < 0 {
+			si := -(idx + 1)
+			if si >= len(servers) {
+				in.Seq = in.Seq[:k]
+				break
+			}
+			cached.reload(onSpecs[si])
+			twin.reload(offSpecs[si])
+			continue
+		}
+		if idx >= len(in.Reqs) {
+			in.Seq = in.Seq[:k]
 			break
 		}
 		r := in.Reqs[idx]
@@ -117,7 +149,113 @@ func c12GenCase(r *vfRand, adv bool) *c01In {
 	if adv {
 		n = r.Range(10, 50)
 	}
+	// reload targets: the identical spec, the same rules with other options / filters,
+	// other rules
+	if r.Chance(2, 3) || adv {
+		for k := r.Range(1, 3); k > 0; k-- {
+			in.Alts = append(in.Alts, c12GenAlt(r, in.Server, filtNum))
+		}
+	}
 	for i := 0; i < n; i++ {
+		if len(in.Alts) > 0 && i > 0 && r.Chance(1, 6) {
+			si := r.Intn(len(in.Alts) + 2) // 0 and 1: the initial spec again
+			if si > 0 {
+				si--
+			}
+			in.Seq = append(in.Seq, -(si + 1))
+			continue
+		}
+		in.Seq = append(in.Seq, r.Intn(len(in.Reqs)))
+	}
+	return in
+}
+
+func c12CloneServer(s c01Server) c01Server {
+	b, _ := json.Marshal(s)
+	var c c01Server
+	json.Unmarshal(b, &c)
+	return c
+}
+
+// c12GenAlt derives a reload target from the running spec.
+func c12GenAlt(r *vfRand, s c01Server, filtNum int) c01Server {
+	c := c12CloneServer(s)
+	switch r.Intn(6) {
+	case 0, 1: // identical (what every pipeline update triggers)
+	case 2: // same rules, other cache size
+		c.CacheSize = r.PickInt(1, 2, 8, 100)
+	case 3: // same rules, other server-level filter
+		if c.Filter == nil {
+			c.Filter = c01GenFilter(r, 1, 1)
+		} else {
+			c.Filter = nil
+		}
+	case 4: // one rule or path dropped / a path's filter or backend changed
+		if len(c.Rules) > 0 {
+			ri := r.Intn(len(c.Rules))
+			ps := c.Rules[ri].Paths
+			switch {
+			case len(ps) > 0 && r.Chance(1, 2):
+				pj := r.Intn(len(ps))
+				if r.Bool() {
+					ps[pj].Filter = c01GenFilter(r, 1, 1)
+				} else {
+					ps[pj].Backend = c01Pick(r, c01Backends)
+				}
+			case len(ps) > 0:
+				pj := r.Intn(len(ps))
+				c.Rules[ri].Paths = append(ps[:pj:pj], ps[pj+1:]...)
+			case len(c.Rules) > 1:
+				c.Rules = append(c.Rules[:ri:ri], c.Rules[ri+1:]...)
+			}
+		}
+	default: // other rules
+		cs := c.CacheSize
+		c = c01GenServer(r, filtNum, true)
+		c.CacheSize = cs
+	}
+	return c
+}
+
+// c12GenReloadCase: the shape on which a cache surviving a reload shows: no header
+// conditions anywhere, IP filters on paths, clients allowed and blocked by them asking for
+// the same host+method+path before and after reloads with the identical spec.
+func c12GenReloadCase(r *vfRand) *c01In {
+	in := &c01In{Server: c01GenServer(r, 7, true)}
+	in.Server.CacheSize = r.PickInt(1, 2, 8, 100)
+	in.Server.Filter = nil
+	for i := range in.Server.Rules {
+		if r.Chance(2, 3) {
+			in.Server.Rules[i].Filter = nil
+		}
+		for j := range in.Server.Rules[i].Paths {
+			p := &in.Server.Rules[i].Paths[j]
+			p.Headers = []c01Header{}
+			p.MatchAll = false
+			if p.Filter == nil && r.Chance(2, 3) {
+				p.Filter = c01GenFilter(r, 1, 1)
+			}
+		}
+	}
+	in.Alts = []c01Server{c12CloneServer(in.Server)}
+	if r.Chance(1, 2) {
+		in.Alts = append(in.Alts, c12GenAlt(r, in.Server, 7))
+	}
+	np := r.Range(1, 3)
+	for i := 0; i < np; i++ {
+		q := c01GenReq(r, in.Server, false)
+		for _, ip := range c01ClientIPs {
+			c := q
+			c.Remote = ip + ":4321"
+			in.Reqs = append(in.Reqs, c)
+		}
+	}
+	n := r.Range(8, 30)
+	for i := 0; i < n; i++ {
+		if i > 0 && r.Chance(1, 5) {
+			in.Seq = append(in.Seq, -(r.Intn(len(in.Alts)+1) + 1))
+			continue
+		}
 		in.Seq = append(in.Seq, r.Intn(len(in.Reqs)))
 	}
 	return in
@@ -145,7 +283,12 @@ func TestVerifC12(t *testing.T) {
 	}
 	n := vfN(200)
 	for i := 0; i < n; i++ {
-		in := c12GenCase(root.Fork(i), adv)
+		var in *c01In
+		if i%6 == 5 || (adv && i%2 == 1) {
+			in = c12GenReloadCase(root.Fork(i))
+		} else {
+			in = c12GenCase(root.Fork(i), adv)
+		}
 		obs := c12Run(in)
 		out.Emit(vfCase{ID: fmt.Sprintf("%s-cache-%d", src, i), Src: src, Grp: "cache", In: in, Obs: obs})
 	}
